@@ -42,6 +42,7 @@ worker() {
     k=$((k+1)); [ $(( (k-1) % W )) -eq $i ] || continue
     local D=/verif/seeded/$N
     local P; P=$(python3 -c "import json;print(json.load(open('$D/meta.json'))['property'])")
+    if python3 -c "import json,sys;sys.exit(0 if json.load(open('$D/meta.json')).get('out_of_domain') else 1)"; then echo "$N $P OUT-OF-DOMAIN (see meta.json)" >> "$S/out.$i"; continue; fi
     if ! git -C "$R/repo" apply "$D/patch.diff" 2>/dev/null; then echo "$N $P patch does not apply to the current tree" >> "$S/out.$i"; continue; fi
     if ( cd "$R/harness" && cargo build --release --offline -q -j $((16 / W)) --target-dir target 2>"$R/build.log" && cargo build --release --offline -q -j $((16 / W)) --features fixed_point --target-dir target-fp 2>"$R/build-fp.log" ); then
       local ROOT="$R/root"; case "$N" in real-*) ROOT="$R/root-noregress" ;; esac
@@ -67,7 +68,7 @@ for i in $(seq 0 $((W-1))); do worker $i & done
 wait
 cat "$S"/out.* 2>/dev/null | sort > "$S/all.txt"
 cat "$S/all.txt"
-MISS=$(grep -vc " DETECTED " "$S/all.txt")
+MISS=$(grep -v " DETECTED " "$S/all.txt" | grep -vc "OUT-OF-DOMAIN")
 echo "not detected: $MISS"
 if [ $# -eq 0 ]; then { cat "$S/all.txt"; echo "not detected: $MISS"; } > /verif/seeded/REGRESS.txt; fi
 rm -rf "$S"; git -C /repo worktree prune
